@@ -25,6 +25,19 @@ def write_op(key, k, var=True):
     return {"op": "write", "var": var, "via": "csm", "buckets": [{"key": key, "cols": cols}]}
 
 
+def write_op_multi(key, base, var, nrows):
+    """one request with several rows: variable -> all in ONE interval (one multi-row write command), fixed -> consecutive intervals"""
+    # incompressible values: a known reader defect (C09) is triggered by highly compressible intervals, not wanted here
+    h = random.Random(base * 7919 + nrows)
+    vals = [(1000 + base) * 10 ** 9 + h.randrange(10 ** 6) * 1000 + r % 1000 for r in range(nrows)]
+    if var:
+        cols = [{"name": "Epoch", "type": "i8", "vals": [EPOCH] * nrows}, {"name": "V", "type": "i8", "vals": vals},
+                {"name": "Nanoseconds", "type": "i4", "vals": sorted(h.randrange(1000, 999000000) for r in range(nrows))}]
+    else:
+        cols = [{"name": "Epoch", "type": "i8", "vals": [EPOCH + 60 * (base * 64 + r) for r in range(nrows)]}, {"name": "V", "type": "i8", "vals": vals}]
+    return {"op": "write", "var": var, "via": "csm", "buckets": [{"key": key, "cols": cols}]}, vals
+
+
 def query_vals(q):
     if q.get("panic"):
         return "panic: " + str(q["panic"])[:200]
@@ -139,19 +152,71 @@ def run(prop, tier):
     res.cov["schedules_infeasible_on_real_code"] = drifts
     if played < max(2, len(meta) // 3):
         raise Undecided("only %d of %d schedules could be forced" % (played, len(meta)))
+    # ---- forced: a request is parked right after it queued a write command while another request's flush takes that
+    #      command; whatever is flushed then must be the complete command (a completed write is never partial) ----
+    cases, meta = [], {}
+    for ci, (var, nrows) in enumerate([(True, 60), (True, 2), (False, 5)]):
+        root = os.path.join(vlib.scratch(), "c18_q%d" % ci)
+        keyA, keyB = "QA/1Min/%s" % ("TICK" if var else "OHLC"), "QB/1Min/OHLC"
+        opA, valsA = write_op_multi(keyA, 7000 + ci, var, nrows)
+        opB, valsB = write_op_multi(keyB, 7100 + ci, False, 1)
+        actors = {"A": [opA, {"op": "query", "dest": keyA}], "B": [opB]}
+        sched = [{"actor": "A", "until": "Queue.after", "label": "A queued a command"},
+                 {"actor": "B", "until": "Queue.after", "label": "B queued"},
+                 {"actor": "B", "until": "done", "label": "B flushes everything queued"}]
+        ops = [{"op": "start", "root": root, "loop_wal_ms": 600000, "loop_prim_ms": 600000},
+               {"op": "play", "x": {"actors": actors, "gated": ["Queue.after"], "schedule": sched, "timeout_ms": 800, "finish": True}},
+               {"op": "shutdown"}]
+        cases.append({"id": "q%d" % ci, "ops": ops})
+        meta["q%d" % ci] = (valsA, keyA, sched, root, nrows)
+    qobs = vlib.run_cases(binary, cases, timeout=600, tag="c18q")
+    nq = 0
+    for cid, (valsA, keyA, sched, root, nrows) in meta.items():
+        shutil.rmtree(root, ignore_errors=True)
+        o = qobs.get(json.dumps(cid))
+        replay = {"check": "readers.queue", "schedule": sched, "key": keyA, "rows": nrows, "seed": vlib.seed()}
+        if o is None or (isinstance(o, dict) and "died" in o):
+            res.violation("the server died while a parked request's command was flushed by another request: %s" % str(o)[-300:], replay)
+            continue
+        play = o[1]
+        fin = (play.get("finished") or {}).get("A") or []
+        if play.get("drift") and len(fin) < 2:
+            res.cov.setdefault("queue_scenario_drift", []).append(play["drift"])
+            continue
+        if len(fin) < 2 or fin[0].get("err") or fin[0].get("panic"):
+            continue
+        got = query_vals(fin[1])
+        nq += 1
+        if isinstance(got, str):
+            res.violation("query after a successful multi-row write failed: %s" % got, replay)
+        else:
+            missing = [v for v in valsA if v not in got]
+            if missing:
+                res.violation("a write request of %d rows to %s returned success while another request's flush had taken its command early: %d rows are missing afterwards (e.g. %s)" % (
+                    nrows, keyA, len(missing), missing[:4]), replay)
+    res.cov["queue_scenarios_played"] = nq
+    res.cov["traces_validated_against_impl"] += nq
     # ---- free-running stress with the race detector ----
     rbin = vlib.build_harness(race=True)
     root = os.path.join(vlib.scratch(), "c18_race")
     actors = {}
     nwr = 4 if quick else 8
+    written = {}       # actor -> [(key, vals)] per request
+    allkeys = set()
     for w in range(nwr):
         key = "S%d/1Min/%s" % (w % 3, "TICK" if w % 2 else "OHLC")
-        actors["w%d" % w] = [write_op(key, 100 * w + k, var=bool(w % 2)) for k in range(6 if quick else 25)]
+        allkeys.add(key)
+        actors["w%d" % w] = []
+        written["w%d" % w] = []
+        for k in range(6 if quick else 25):
+            op, vals = write_op_multi(key, 100 * w + k, bool(w % 2), rng.choice([1, 3, 40, 1500] if w % 2 else [1, 3, 40]))
+            actors["w%d" % w].append(op)
+            written["w%d" % w].append((key, vals))
     for rd in range(3):
         key = "S%d/1Min/%s" % (rd, "TICK" if rd % 2 else "OHLC")
         actors["r%d" % rd] = [{"op": "query", "dest": key} for _ in range(10 if quick else 40)]
-    ops = [{"op": "start", "root": root, "loop_wal_ms": 2, "loop_prim_ms": 7, "rotate": 2},
-           {"op": "par", "x": {"actors": actors}}, {"op": "sleep", "sleep_ms": 30}, {"op": "shutdown"}]
+    ops = [{"op": "start", "root": root, "loop_wal_ms": 1, "loop_prim_ms": 7, "rotate": 2},
+           {"op": "par", "x": {"actors": actors}}, {"op": "sleep", "sleep_ms": 30}] + [{"op": "query", "dest": k} for k in sorted(allkeys)] + [{"op": "shutdown"}]
     env = dict(vlib.GOENV, GORACE="halt_on_error=0 exitcode=0")
     robs = vlib.run_cases(rbin, [{"id": "race", "ops": ops}], timeout=900, env=env, tag="c18race")
     shutil.rmtree(root, ignore_errors=True)
@@ -170,6 +235,31 @@ def run(prop, tier):
                         res.known_finding(known["InPlace"], {"stress": True, "query_error": str(x["err"])[:160]})
                     else:
                         res.violation("query error under concurrent load: %s" % str(x["err"])[:300], {"check": "readers.stress"})
+    if not (isinstance(o, dict) and "died" in o):
+        # every row of every write request that returned success is there afterwards (a completed write is never partial)
+        final = {}
+        corrupt = False
+        for k, qo in zip(sorted(allkeys), o[3:3 + len(allkeys)]):
+            v = query_vals(qo)
+            if isinstance(v, str):
+                corrupt = corrupt or "corrupt input" in v
+                final[k] = None
+            else:
+                final[k] = v
+        nreq = 0
+        for name, reqs in written.items():
+            aobs = (o[1].get("actors") or {}).get(name) or []
+            for (key, vals), wo in zip(reqs, aobs):
+                if wo.get("err") or wo.get("panic") or final.get(key) is None:
+                    continue
+                nreq += 1
+                missing = [v for v in vals if v not in final[key]]
+                if missing:
+                    res.violation("free-running writers with the background loop: write request of %s to %s returned success with %d rows, afterwards %d of them are missing (e.g. %s)" % (
+                        name, key, len(vals), len(missing), missing[:5]), {"check": "readers.stress", "seed": vlib.seed()})
+                    break
+        res.cov["stress_requests_checked_for_completeness"] = nreq
+        res.cov["traces_validated_against_impl"] += 1
     races = parse_races(stderr)
     res.cov["race_reports"] = len(races)
     for sig, text in races.items():
